@@ -63,6 +63,52 @@ def events_for_case(o, cid, gam, qs, ids, metrics=sd.METRICS, extra_targets=()):
     return evs
 
 
+def forms_and_large(ctx, ids, cases):
+    """Independent trace: targets given as list / tuple / pandas Series; objects of a few hundred to a
+    few thousand scores (ties, easy samples) with a random subset of on- and off-grid targets."""
+    import numpy as np
+    import pandas as pd
+    from fractions import Fraction
+    rnd = np.random.RandomState(ctx.seed + 404)
+    out = []
+    g = gamma.ident()
+    forms = [list, tuple, pd.Series, lambda x: x.reshape(1, -1)[0]]
+    for k in range(16 if ctx.tier == "quick" else 150):
+        o = {"pos": sorted(int(x) for x in rnd.randint(0, 4, rnd.randint(0, 5))),
+             "neg": sorted(int(x) for x in rnd.randint(0, 4, rnd.randint(0, 5))),
+             "ep": int(rnd.randint(0, 3)), "en": int(rnd.randint(0, 3)),
+             "sc": ["pos", "neg"][k % 2], "ec": ["pos", "neg"][(k // 2) % 2]}
+        cid = len(cases)
+        cases.append(o)
+        evs = []
+        ev = sd.make_ev(evs, ids, cid, g)
+        s = sd.new_event(ev, o, g)
+        if s is not None:
+            for j, m in enumerate(sd.METRICS):
+                if sd.rel_scores(o, m):
+                    sd.threshold_event(ev, s, o, m, [1, 2], g, form=forms[(k + j) % 4])
+        out += evs
+    for k, n in enumerate([150, 1200] if ctx.tier == "quick" else [150, 400, 1200, 3000]):
+        vals = rnd.randint(0, max(10, n // 5), n)
+        npos = n // 2 + 3 * k
+        o = {"pos": sorted(int(x) for x in vals[:npos]), "neg": sorted(int(x) for x in vals[npos:]),
+             "ep": int(rnd.randint(0, 40)), "en": int(rnd.randint(0, 40)),
+             "sc": ["pos", "neg"][k % 2], "ec": ["pos", "neg"][(k // 2) % 2]}
+        cid = len(cases)
+        cases.append({"kind": "large", "n": n})
+        evs = []
+        ev = sd.make_ev(evs, ids, cid, g)
+        s = sd.new_event(ev, o, g)
+        if s is not None:
+            for m in sd.METRICS:
+                N = sd.metric_pop(o, m)
+                ks = sorted(set(int(x) for x in rnd.randint(0, 2 * N + 1, 12)) | {0, 1, 2 * N - 1, 2 * N})
+                tg = [Fraction(kk, 2 * N) for kk in ks] + [Fraction(-1, 3), Fraction(4, 3)]
+                sd.threshold_event(ev, s, o, m, [], g, only_targets=tg)
+        out += evs
+    return out
+
+
 def nontrivial_key(o):
     vals = list(o["pos"]) + list(o["neg"])
     if len(set(vals)) < len(vals) or o["ep"] or o["en"]:
@@ -91,6 +137,7 @@ def run(ctx: core.Ctx, prefixes=PREFIXES):
         k = nontrivial_key(o)
         if k:
             ctx.nontrivial.add(k)
+    events += forms_and_large(ctx, ids, cases)
     for e in events[:2]:
         ctx.sample(e)
     ctx.judge("Trace_C02", events, cases=cases, batch=1500)
